@@ -58,6 +58,7 @@ def run(ctx: Ctx) -> None:
     debounce_arms_repeat(ctx, py, rs)
     kil_read_fresh(ctx, py)
     api_parity_and_full_scan(ctx, py, rs)
+    register_access_and_queue_order(ctx, py)
 
 
 # ---------------------------------------------------------------------------
@@ -747,3 +748,75 @@ def api_parity_and_full_scan(ctx: Ctx, py: PyProgram, rs: RustProgram) -> None:
                               f"{q} sets state.debounced = {flds['debounced']}: the debounced flag belongs to the scan automaton, which emits the press event when it sets it and the release event when it clears it. "
                               + ("Clearing it on release means the release event is never produced." if "release" in q else "Clearing it on a press makes the scan debounce (and report) a key a second time without a release in between."), where_)
     ctx.instance("C14.4/api-and-scan", "scan_tick visits every key (both cores); press/release entry points agree on the pressed/debounced fields they set (both cores)", n, 4)
+
+
+# CPU-visible register accesses of the matrix: what they may change is the strobe registers, the KIL latch and statistics - never a
+# key's debounce automaton (that advances with scan ticks and host key presses only)
+REGISTER_ACCESS = ("write_kol", "write_koh", "read_kil", "peek_kil", "get_active_columns")
+
+
+class _Host:
+    _sa_host = True
+
+    def __init__(self, **kw: Any):
+        for k, v in kw.items():
+            setattr(self, k, v)
+
+
+def register_access_and_queue_order(ctx: Ctx, py: PyProgram) -> None:
+    """(a) Who may write the per-key debounce state (the fields of KeyState): nothing reachable from a strobe-register write or a KIL
+    read.  (b) fifo_snapshot lists the pending events oldest first: interpreted for every (head, tail) of the ring with symbolic
+    slot contents."""
+    from ..memo import method_closure
+    from ..pyfacts import NotConst, _Return
+    mod = py.module(KM_PY)
+    ks = py.need_cls(mod, "KeyState")
+    fields = {st.target.id for st in ks.node.body if isinstance(st, ast.AnnAssign) and isinstance(st.target, ast.Name)} - {"location"}
+    ctx.need(len(fields) >= 4, f"KeyState fields not found: {sorted(fields)}")
+    km = py.need_cls(mod, "KeyboardMatrix")
+    n = 0
+    for entry in REGISTER_ACCESS:
+        if entry not in km.methods:
+            continue
+        n += 1
+        for mname in sorted(method_closure(mod, "KeyboardMatrix", (entry,))):
+            fn = km.methods[mname]
+            for a in ast.walk(fn):
+                ts = a.targets if isinstance(a, ast.Assign) else [a.target] if isinstance(a, (ast.AugAssign, ast.AnnAssign)) else []
+                for t in ts:
+                    if isinstance(t, ast.Attribute) and t.attr in fields and not (isinstance(t.value, ast.Name) and t.value.id == "self"):
+                        ctx.violation("C14.4/register-access-pure", key_of(KM_PY, f"KeyboardMatrix.{entry}", f"writes KeyState.{t.attr}"),
+                                      f"KeyboardMatrix.{entry} reaches `{unparse(a)[:70]}` (in {mname}): a strobe-register write / KIL read changes a key's debounce state, so whether a held key "
+                                      "debounces depends on how the firmware strobes between scan ticks", f"{KM_PY}:{a.lineno}")
+    ctx.need(n >= 3, "KeyboardMatrix register access entry points not found")
+    # (b)
+    size = PyEval(py, mod).eval(ast.Name(id="FIFO_SIZE", ctx=ast.Load()))
+    ctx.need(isinstance(size, int) and 2 <= size <= 64, "FIFO_SIZE not a small integer")
+    fn = km.methods.get("fifo_snapshot")
+    ctx.need(fn is not None, "KeyboardMatrix.fifo_snapshot vanished")
+    bad = None
+    m = 0
+    for head in range(size):
+        for tail in range(size):
+            m += 1
+            me = _Host(_fifo=[("slot", i) for i in range(size)], _head=head, _tail=tail, _count=(tail - head) % size)
+            ev = PyEval(py, mod, budget=[20000])
+            ev.env = {"self": me}
+            ret = None
+            try:
+                try:
+                    ev.exec_block(fn.body)
+                except _Return as r:
+                    ret = r.v
+            except NotConst as e:
+                raise AnalysisError(f"fifo_snapshot left the evaluable fragment: {e}")
+            want = [("slot", (head + i) % size) for i in range((tail - head) % size)]
+            if list(ret or []) != want and bad is None:
+                bad = (head, tail, ret, want)
+    if bad:
+        head, tail, ret, want = bad
+        ctx.violation("C14.1/fifo-order", key_of(KM_PY, "KeyboardMatrix.fifo_snapshot", "pending events out of queue order"),
+                      f"fifo_snapshot with head={head}, tail={tail} lists slots {[x[1] for x in (ret or [])]}, the queue order (oldest first) is {[x[1] for x in want]}: "
+                      "once the ring wraps, events are reported out of order (a release before its press)", f"{KM_PY}:{fn.lineno}")
+    ctx.instance("C14.4/register-access-pure", "register-access entry points of the matrix followed through their helpers: no store to a KeyState field", n, 3)
+    ctx.instance("C14.1/fifo-order", "fifo_snapshot interpreted for every (head, tail) of the ring with symbolic slots: oldest first", m, 64)
